@@ -1,6 +1,7 @@
 package main
 
 import (
+	"crypto/sha256"
 	"fmt"
 	"strings"
 
@@ -58,6 +59,105 @@ func runC04(cx *ctx) {
 					})
 			})
 		}
+	}
+	// ONE recipient value used for several files: every file it writes must still refuse near-miss and
+	// degenerate identities (and open for its own identity: the model predicts both)
+	for i := 0; i < cx.n(24, 200); i++ {
+		rr := r.Fork()
+		kind := i % 4
+		p := mkParty(rr, kind)
+		var pw []byte
+		if kind == 3 {
+			pw, _ = hexDecode(strings.Split(p.idD, ":")[1])
+		}
+		nfiles := 2 + rr.Intn(2)
+		for j := 0; j < nfiles; j++ {
+			pt := rr.Bytes(rr.Intn(60))
+			file, err, _ := realEncryptFile(rr.Bytes(200), []age.Recipient{p.rec}, [][]byte{pt}, false)
+			if err != nil {
+				panic(err)
+			}
+			j := j
+			rb := rr.Fork()
+			cx.ru.Do(func() *h.Case {
+				var ids []age.Identity
+				var ds []string
+				switch kind {
+				case 3:
+					for _, q := range [][]byte{{0}, {0, 0}, bytesRepeat(0, len(pw)), bytesRepeat(' ', len(pw)), append([]byte{pw[0] ^ 1}, pw[1:]...)} {
+						if string(q) == string(pw) {
+							continue
+						}
+						id, d := scryptIdentity(q, 22)
+						ids, ds = append(ids, id), append(ds, d)
+					}
+				default:
+					for _, sk := range [][]byte{make([]byte, 32), bytesRepeat(0xff, 32), rb.Bytes(32)} {
+						s, _ := bech32Encode("AGE-SECRET-KEY-", sk)
+						id, err := age.ParseX25519Identity(strings.ToUpper(s))
+						if err != nil {
+							continue
+						}
+						ids, ds = append(ids, id), append(ds, "x:"+h.Hex(sk))
+					}
+					q := mkParty(rb, kind)
+					if kind != 2 { // the RSA pool is shared: a fresh draw may be the same key
+						ids, ds = append(ids, q.id), append(ds, q.idD)
+					}
+				}
+				return fdecCase("reused-recipient-"+p.label, file, ids, ds, fmt.Sprintf("file #%d written by one %s recipient value; degenerate and near-miss identities", j+1, p.label),
+					func(out []byte, class string, consulted int) string {
+						if strings.HasPrefix(class, "ok") || class == "err-with-reader" || len(out) > 0 {
+							return fmt.Sprintf("file #%d of a reused recipient value opened for identities that are not its recipient: %s", j+1, class)
+						}
+						if want := fmt.Sprintf("err nomatch%d", len(ids)); class != want {
+							return fmt.Sprintf("expected %s, got %s", want, class)
+						}
+						return ""
+					})
+			})
+			cx.ru.Do(func() *h.Case {
+				return fdecCase("reused-recipient-own-"+p.label, file, []age.Identity{p.id}, []string{p.idD}, fmt.Sprintf("file #%d written by one %s recipient value; its own identity (non-vacuity of the cases above)", j+1, p.label), nil)
+			})
+		}
+	}
+	// known finding K1: passphrases the key derivation cannot tell apart (HMAC key zero padding / pre-hashing)
+	for i := 0; i < cx.n(6, 40); i++ {
+		rr := r.Fork()
+		long := i%3 == 2
+		cx.ru.Do(func() *h.Case {
+			var p *party
+			if long {
+				pw := make([]byte, 65+rr.Intn(40))
+				for k := range pw {
+					pw[k] = byte(33 + rr.Intn(94))
+				}
+				p = scryptParty(pw, 1+rr.Intn(3), 22)
+			} else {
+				p = newScrypt(rr, 1+rr.Intn(3), 22)
+			}
+			pw, _ := hexDecode(strings.Split(p.idD, ":")[1])
+			pt := rr.Bytes(1 + rr.Intn(40))
+			file, err, _ := realEncryptFile(rr.Bytes(200), []age.Recipient{p.rec}, [][]byte{pt}, false)
+			if err != nil {
+				panic(err)
+			}
+			kind := "passphrase-nul-suffix"
+			q := append(append([]byte(nil), pw...), make([]byte, 1+rr.Intn(3))...)
+			if long {
+				kind = "passphrase-hash-equivalent"
+				d := sha256.Sum256(pw)
+				q = d[:]
+			}
+			id, d := scryptIdentity(q, 22)
+			return fdecCase(kind, file, []age.Identity{id}, []string{d}, fmt.Sprintf("passphrase %d bytes; other passphrase %d bytes", len(pw), len(q)),
+				func(out []byte, class string, consulted int) string {
+					if class != "err nomatch1" {
+						return "a passphrase identity whose passphrase is not the recipient's opened the file (" + kind + "): " + class
+					}
+					return ""
+				})
+		})
 	}
 	for i := 0; i < cx.n(1000, 10000); i++ {
 		rr := r.Fork()
@@ -165,4 +265,20 @@ func runC04(cx *ctx) {
 				})
 		})
 	}
+}
+
+func bytesRepeat(b byte, n int) []byte {
+	out := make([]byte, n)
+	for i := range out {
+		out[i] = b
+	}
+	return out
+}
+
+func scryptParty(pw []byte, logN, maxWF int) *party {
+	rec, _ := age.NewScryptRecipient(string(pw))
+	rec.SetWorkFactor(logN)
+	id, _ := age.NewScryptIdentity(string(pw))
+	id.SetMaxWorkFactor(maxWF)
+	return &party{kind: "s", rec: rec, id: id, recD: fmt.Sprintf("s:%s:%d", h.Hex(pw), logN), idD: fmt.Sprintf("s:%s:%d", h.Hex(pw), maxWF), label: "scrypt"}
 }
